@@ -23,7 +23,7 @@
      the first attribute whose code is >= 5, which is the partition point
      whenever the vector is partitioned; for other inputs the position is
      unspecified and the comparison sorts (gen/c09.py, canon). *)
-From Coq Require Import List NArith Bool.
+From Coq Require Import List NArith ZArith Bool.
 From RB Require Import Base.Val.
 Import ListNotations.
 Open Scope N_scope.
@@ -492,6 +492,47 @@ Definition policy_fn := source -> list attr -> option nexthop -> option nexthop
                         -> option (list attr * option nexthop).
 Definition no_policy : policy_fn := fun _ a nh _ => Some (a, nh).
 
+(* A one-statement export policy without conditions (table/src/policy.rs
+   Statement::apply, the nexthop and med actions; Policy::apply /
+   PolicyAssignment::apply for a single statement): the shape used to tie the
+   "export-policy next-hop / MED actions" of the property to the real
+   table::apply_export. *)
+Inductive nh_action := NaAddress (ip : ipaddr) | NaSelf | NaPeer | NaUnchanged.
+Inductive med_action := MedMod (delta : Z) | MedReplace (v : Z).
+Inductive disp := DPass | DAccept | DReject.
+Record stmt := { st_nh : option nh_action; st_med : option med_action; st_disp : disp }.
+
+Definition ip_to_nh (ip : ipaddr) : nexthop := match ip with IP4 b => NhV4 b | IP6 b => NhV6 b end.
+Definition clamp_u32 (z : Z) : N :=
+  if (z <? 0)%Z then 0 else if (4294967295 <? z)%Z then 4294967295 else Z.to_N z.
+
+Definition stmt_policy (x : ectx) (raddr : ipaddr) (st : stmt) (default : disp) : policy_fn :=
+  fun _ a nh onh =>
+    let nh1 := match st_nh st with
+               | None => nh
+               | Some (NaAddress ip) => Some (ip_to_nh ip)
+               | Some NaSelf => Some (ip_to_nh (x_laddr x))
+               | Some NaPeer => Some (ip_to_nh raddr)
+               | Some NaUnchanged => match onh with Some o => Some o | None => nh end
+               end in
+    let a1 := match st_med st with
+              | None => a
+              | Some act =>
+                let cur := match find_code MED a with
+                           | Some m => match value m with Some v => v | None => 0 end
+                           | None => 0
+                           end in
+                let nm := match act with
+                          | MedMod d => clamp_u32 (Z.of_N cur + d)
+                          | MedReplace v => clamp_u32 v
+                          end in
+                filter (fun t => negb (a_code t =? MED)) a ++ [mk_val MED FLAG_OPTIONAL nm]
+              end in
+    match (match st_disp st with DPass => default | d => d end) with
+    | DReject => None
+    | _ => Some (a1, nh1)
+    end.
+
 (* echo / split horizon / RS isolation *)
 Definition visible (x : ectx) (raddr : ipaddr) (cid : option N) (p : path) : bool :=
   negb (ip_eqb (src_raddr (p_src p)) raddr)
@@ -664,7 +705,9 @@ Inductive case :=
 | CProcess (x : ectx) (emax : N) (raddr : ipaddr) (cid : option N) (c : change) (e : emap) (probe : list N) (* 9 *)
 | CRxLoop (x : ectx) (rid : N) (cid : option N) (attrs : list attr)    (* 10 *)
 | CLlgrScenario (x : ectx) (emax : N) (raddr : ipaddr) (cid : option N) (ps : peer_src)
-                (nh : option nexthop) (attrs : list attr).              (* 11 *)
+                (nh : option nexthop) (attrs : list attr)               (* 11 *)
+| CProcessPol (x : ectx) (emax : N) (raddr : ipaddr) (cid : option N) (c : change) (e : emap) (probe : list N)
+              (st : stmt) (default : disp).                             (* 12: with a real export policy *)
 
 Definition run_case (c : case) : val :=
   match c with
@@ -687,4 +730,7 @@ Definition run_case (c : case) : val :=
   | CLlgrScenario x emax raddr cid ps nh attrs =>
     v_res (fun r => VL [VList v_sinkop (fst (fst r)); VList v_sinkop (snd (fst r))])
           (llgr_scenario x no_policy emax raddr cid ps nh attrs)
+  | CProcessPol x emax raddr cid ch e probe st default =>
+    v_res (fun r => VL [VList v_sinkop (fst r); v_emap (snd r) probe])
+          (process_change x (stmt_policy x raddr st default) emax raddr cid ch e)
   end.
